@@ -153,7 +153,8 @@ def build_obj(o, real, lp, other):
     inst = real[o['cls']].__new__(real[o['cls']])
     for n, v in o['attrs']:
         if v[0] == 'plain':
-            setattr(inst, n, copy.deepcopy(v[1]))
+            import portgen
+            setattr(inst, n, copy.deepcopy(portgen.decode(v[1])))
         elif v[0] == 'method':
             setattr(inst, n, getattr(inst if v[1] else other, v[2]))
         elif v[0] == 'obj':
@@ -214,7 +215,8 @@ def canon_obj(inst, classes, name_of, original=None):
         elif isinstance(v, persistence.Savable):
             attrs.append([n, canon_obj(v, classes, name_of)])
         else:
-            attrs.append([n, ['plain', v]])
+            import portgen
+            attrs.append([n, ['plain', portgen.encode(v)]])
     return ['obj', {'cls': cls, 'attrs': attrs}]
 
 
@@ -265,26 +267,53 @@ def run_impl(case):
                 delattr(procs, k)
 
 
+def _mutate_value(v):
+    """change every mutable container reachable from v in place (also inside tuples)"""
+    if isinstance(v, list):
+        for x in v:
+            _mutate_value(x)
+        v.append('mutated')
+    elif isinstance(v, dict):
+        for x in list(v.values()):
+            _mutate_value(x)
+        v['mutated'] = True
+    elif isinstance(v, tuple):
+        for x in v:
+            _mutate_value(x)
+
+
 def mutate_original(inst):
     from plumpy import persistence
     for n, v in list(vars(inst).items()):
-        if isinstance(v, list):
-            v.append('mutated')
-        elif isinstance(v, dict):
-            v['mutated'] = True
-        elif isinstance(v, persistence.Savable) and not isinstance(v, persistence.SavableFuture):
+        if isinstance(v, persistence.Savable) and not isinstance(v, persistence.SavableFuture):
             mutate_original(v)
+        else:
+            _mutate_value(v)
+
+
+def _mutables(v, acc):
+    if isinstance(v, (list, dict)):
+        acc.append(v)
+        for x in (v if isinstance(v, list) else v.values()):
+            _mutables(x, acc)
+    elif isinstance(v, tuple):
+        for x in v:
+            _mutables(x, acc)
+    return acc
 
 
 def shares(new, old):
+    """does any mutable container reachable from a member of `new` also belong to the same member of `old`?"""
     from plumpy import persistence
     for n, v in vars(new).items():
         w = getattr(old, n, None)
-        if isinstance(v, (list, dict)) and v is w:
-            return True
-        if isinstance(v, persistence.Savable) and not isinstance(v, persistence.SavableFuture) and isinstance(w, persistence.Savable):
-            if v is w or shares(v, w):
+        if isinstance(v, persistence.Savable) and not isinstance(v, persistence.SavableFuture):
+            if isinstance(w, persistence.Savable) and (v is w or shares(v, w)):
                 return True
+            continue
+        theirs = {id(x) for x in _mutables(w, [])}
+        if any(id(x) in theirs for x in _mutables(v, [])):
+            return True
     return False
 
 
@@ -375,7 +404,7 @@ def distribution(cases, obs):
 
 # ---------------------------------------------------------------- generators
 FUTS = [['pending'], ['result', 5], ['result', [1, 2]], ['exn', 'boom'], ['cancelled']]
-PLAINS = [1, 'a', None, [1, 2], {'k': [1]}, True]
+PLAINS = [1, 'a', None, [1, 2], {'k': [1]}, True, {'__tuple__': [[1, 2], {'k': 1}]}]
 LOADER_CFGS = [('default', None, None), ('default', 'custom', None), ('default', 'custom', 'custom'), ('default', None, 'custom'),
                ('custom', None, None), ('custom', 'custom', None), ('default', 'custom', 'default'), ('custom', None, 'default'),
                ('default', 'default', None)]
@@ -408,6 +437,7 @@ def generate(tier, rng, around=None):
             inner2 = {'cls': 'KI', 'attrs': [['x', ['obj', {'cls': 'K0', 'attrs': [[n, ['plain', 7]] for n in persisted(classes, 'K0')]}]],
                                              ['y', ['method', True, 'm2']]]}
             value_sets = [[['plain', v] for v in PLAINS[:3]], [['plain', [1, 2]], ['plain', {'k': [1]}], ['method', True, 'm1']],
+                          [['plain', {'__tuple__': [[1, 2], {'k': [3]}]}], ['plain', {'__tuple__': []}], ['plain', [{'__tuple__': [[0]]}]]],
                           [['obj', inner], ['fut', ['pending']], ['plain', 'a']], [['obj', inner2], ['fut', ['exn', 'boom']], ['fut', ['cancelled']]],
                           [['method', False, 'm1'], ['plain', 1], ['plain', 2]]]
             for vs in value_sets:
